@@ -12,6 +12,7 @@ use crate::topics::{RemoveSubscriptionError, Topic, TopicMessage, TopicName};
 use futures::future::Shared;
 use futures::FutureExt;
 use parking_lot::Mutex;
+use std::sync::atomic::{AtomicBool, Ordering};
 use std::sync::{Arc, Weak};
 use tokio::sync::{mpsc, oneshot, Notify};
 use tokio::time::Instant;
@@ -287,6 +288,10 @@ impl SubscriptionActor {
 
         self.deleted = true;
 
+        // From here on the topic must not (re-)attach us: a `CreateSubscription` may
+        // still be on its way to the topic with our attachment request.
+        self.observer.mark_detached();
+
         // Further deletions that arrive while this one is waiting for the topic are
         // answered once it is done.
         let mut pending_deletes = Vec::new();
@@ -360,6 +365,9 @@ pub(crate) struct SubscriptionObserver {
     /// Notifies when there are new messages to pull.
     notify_messages_available: Notify,
 
+    /// Set once the subscription has started removing itself from its topic.
+    detached: AtomicBool,
+
     /// Notifies when the subscription gets deleted.
     /// Used by consumers to cancel any in-progress long-running operations.
     deleted_recv: Shared<oneshot::Receiver<()>>,
@@ -378,7 +386,18 @@ impl SubscriptionObserver {
             deleted_send: Mutex::new(Some(deleted_send)),
             deleted_recv: deleted_recv.shared(),
             notify_messages_available: Notify::new(),
+            detached: AtomicBool::new(false),
         }
+    }
+
+    /// Marks the subscription as no longer attachable to its topic.
+    pub fn mark_detached(&self) {
+        self.detached.store(true, Ordering::SeqCst);
+    }
+
+    /// Whether the subscription has started removing itself from its topic.
+    pub fn is_detached(&self) -> bool {
+        self.detached.load(Ordering::SeqCst)
     }
 
     /// Notifies of new messages being available.
